@@ -12,6 +12,7 @@ import AndaVerif.Proofs.EncRanges
 import AndaVerif.Proofs.EncWriter
 import AndaVerif.Proofs.EncLayout
 import AndaVerif.Proofs.EncMultipart
+import AndaVerif.Proofs.EncCopy
 
 namespace AndaVerif.Props.C09
 open AndaVerif.Enc AndaVerif.Gen.EncAad
@@ -237,6 +238,50 @@ example : (getObjectWarm toyAEAD true 4
       [121] none false (fun b => [b])
       (some (sealMeta toyAEAD [121] [8] { exWritten.2 with generation := some [1] }))).2 = .fail .authFailed [] := by
   decide
+
+/-! ### `copy` / `copy_if_not_exists` / `rename` / `rename_if_not_exists` as read paths
+
+The store reads the source's document, verifies it **under the source path** and re-seals it for the
+target.  `copyObjectWarm` models the retry loop of `copy_payload`; whether the re-resolved document is
+verified is the **generated** `retryVerifies` (`gen_resolveLoopsVerified`), which this theorem uses. -/
+
+/-- For any backend, any cached document, cold or warm instance, with the NotFound re-resolve: if the
+copy / rename completes, then some commit `k` **of the source key** exists such that — whatever the backend
+looks like afterwards (`B₂` arbitrary: a tamper between any two steps) — every completed read of the target
+returns the requested slice of a commit of the target in `commits ++ [⟨to, k.plain, …⟩]`: an earlier commit
+of the target, or the source's original bytes.  Tampered state is never laundered into a valid target. -/
+theorem copy_never_launders (A : AEAD) (H : List SealRec) (commits : List Commit)
+    (hI : Ideal A H) (hN : NonceRespecting H) (hH : Honest H commits)
+    (strict : Bool) (B : Backend) (hB : ∀ loc m, B.metaDoc loc = .ok m → m.fits loc = true)
+    (src to : Bytes) (f : Fresh) (cached : Option Meta)
+    (hcfit : ∀ m, cached = some m → m.fits src = true)
+    (hmode : strict = true ∨
+      ((∀ m, B.metaDoc src = .ok m → ¬ legacyShaped m) ∧ ∀ m, cached = some m → ¬ legacyShaped m))
+    (hto : to.length < U64) (hetag : f.eTag.length < U64) (hgen : f.generation.length < U64)
+    (hts : f.committedAtMs < U64) (hfresh : ∀ r ∈ H, r.nonce ≠ f.authNonce)
+    (p : Bytes) (d : Meta) (h : copyObjectWarm A strict B src to f cached = .ok (p, d)) :
+    ∃ k ∈ commits, k.loc = src ∧
+      ∀ (B₂ : Backend), (∀ loc m, B₂.metaDoc loc = .ok m → m.fits loc = true) →
+      ∀ (strict₂ : Bool) (storeChunk : Nat) (range : Option GetRange) (head : Bool)
+        (resegment : Bytes → List Bytes),
+        (strict₂ = true ∨ ∀ m, B₂.metaDoc to = .ok m → ¬ legacyShaped m) →
+        GetOk (commits ++ [⟨to, k.plain, k.c, d⟩]) to
+          (getObject A strict₂ storeChunk B₂ to range head resegment).1
+          (getObject A strict₂ storeChunk B₂ to range head resegment).2 := by
+  obtain ⟨k, hk, hloc, hI', hN', hH'⟩ :=
+    copyObjectWarm_ok hI hN hH strict B hB src to f cached hcfit hmode hto hetag hgen hts hfresh h
+  exact ⟨k, hk, hloc, fun B₂ hB₂ strict₂ sc range head reseg hm₂ =>
+    getObject_ok hI' hN' hH' strict₂ sc B₂ hB₂ to range head reseg hm₂⟩
+
+/-- If the source did *not* verify the re-resolved document the model would launder: a warm copy over a
+backend whose `meta/<src>` is an unsealed foreign document completes (so the generated fact is load-bearing). -/
+example : (copyWith toyAEAD true { metaDoc := fun _ => .ok forgedLegacyDoc, payload := fun _ _ => some [] }
+    [120] [121] toyFreshEx false (.ok forgedLegacyDoc)).toOption.isSome = true ∧
+    (copyWith toyAEAD true { metaDoc := fun _ => .ok forgedLegacyDoc, payload := fun _ _ => some [] }
+    [120] [121] toyFreshEx true (.ok forgedLegacyDoc)).toOption.isSome = false := by decide
+
+set_option maxRecDepth 20000 in
+example : (copyObjectWarm toyAEAD true exBackend [120] [121] toyFreshEx none).toOption.isSome = true := by decide
 
 /-- Listing entries (`list`, `list_with_offset`, `list_with_delimiter`): the same, without touching the payload. -/
 theorem tamper_detected_list (A : AEAD) (H : List SealRec) (commits : List Commit)
